@@ -1,12 +1,12 @@
 (* C16 — gob encoding restores a session exactly, and old records stay
-   readable. Statements only; proofs are in Proofs/CodecLaws.v. gob_version,
+   readable. Statements only; proofs are in Proofs/CodecLaws.v and CodecPinned.v. gob_version,
    gob_enc and gob_dec are regenerated from GobEncode/GobDecode on every run
    (Gen/Layout.v); `load` stands for Persistence.LoadUser and is universally
    quantified. Assumed, not proved: encoding/gob restores each value it is
    given (the wire is modelled as the list of typed values); the model of
    time.Time's binary form (zone offset) is compared with the real library by
    the correspondence check. *)
-From Sessions Require Import Model.Base Model.Codec Gen.Layout Proofs.CodecLaws.
+From Sessions Require Import Model.Base Model.Codec Gen.Layout Proofs.CodecText Proofs.CodecDefs Proofs.CodecPinned Proofs.CodecLaws.
 
 (* For every session — ordinary or replaced-ID record, with or without user,
    any instants (zone offset representable in time's binary form), strings,
